@@ -70,6 +70,7 @@ from exabgp.rib.route import Route
 EXTENDED_COMMUNITY_TARGET_PARTS = 2  # Target extended community has 2 parts (ASN:value)
 COMMUNITY_HALF_MAX = 0xFFFF  # each half of a community written as <n>:<n> is two octets (RFC 1997)
 LARGE_COMMUNITY_PART_MAX = 0xFFFFFFFF  # each part of a large community is four octets (RFC 8092)
+PATH_INFORMATION_MAX = 0xFFFFFFFF  # the path identifier is four octets (RFC 7911)
 
 
 def prefix(tokeniser: 'Tokeniser') -> IPRange:
@@ -96,7 +97,10 @@ def prefix(tokeniser: 'Tokeniser') -> IPRange:
 def path_information(tokeniser: 'Tokeniser') -> PathInfo:
     pi = tokeniser()
     if pi.isdigit():
-        return PathInfo.make_from_integer(int(pi))
+        number = int(pi)
+        if number > PATH_INFORMATION_MAX:
+            raise ValueError(f"'{pi}' is not a valid path-information\n  Must be 0 to {PATH_INFORMATION_MAX} (32 bits)")
+        return PathInfo.make_from_integer(number)
     return PathInfo.make_from_ip(pi)
 
 
